@@ -65,7 +65,10 @@ def judge(inst, flavour, pw, w, ids, x, y, pattern, acc):
     k1, k2, m1, m2, nc = exchange(inst, flavour, pw, ids, x, y, pattern, acc)
     acc.n(transitions=nc)
     # reference classification of the run (protocol-level coincidences the statement exempts)
-    p1, p2 = RS.payload(rp, s1, w, x), RS.payload(rp, s2, w, y)
+    if m1[0] == "ok" and m2[0] == "ok":
+        p1, p2 = m1[1][1:], m2[1][1:]          # the exemptions of the statement are about the elements actually sent
+    else:
+        p1, p2 = RS.payload(rp, s1, w, x), RS.payload(rp, s2, w, y)
     ident = R.enc(R.identity)
     F = fam(inst)
     if p1 == p2:
@@ -131,6 +134,40 @@ def _ids_task(name):
                     judge(inst, flavour, pw, w, ids, x, y, pattern, acc)
                     n += 1
     acc.n(traces=n, states=n // 2)
+    return acc
+
+
+def _sequence_task(task):
+    """several parameter sets used one after the other in ONE process with the same passwords and scalars (same group object
+    with other seeds, another group, back to the first): agreement must not depend on what ran before"""
+    names, = task
+    acc = Acc()
+    insts = []
+    for n in names:
+        try:
+            if n.endswith("'"):
+                base = T.get(n[:-1])
+                s = base.rp.seeds
+                inst = T.reseeded(base, M=T.alt_seed(base, s[0], b"+"), N=T.alt_seed(base, s[1], b"+"), S=T.alt_seed(base, s[2], b"+"), name=n)
+            else:
+                inst = T.get(n)
+            insts.append(inst)
+        except Exception as e:
+            acc.degrade("%s unavailable: %s: %s" % (n, type(e).__name__, e))
+    n = 0
+    for rnd in range(2):
+        for inst in insts + insts[::-1]:
+            q = inst.q
+            for pw in (b"pw", b"other"):
+                w = inst.ref.pw_scalar(pw)
+                scal = [(1, 2), (3 % q, 4 % q), (0, 1)] if not inst.small else [(x, y) for x in range(min(q, 5)) for y in range(min(q, 5))]
+                for flavour in ("AB", "SS"):
+                    for (x, y) in scal:
+                        for pattern in ("none", "both"):
+                            judge(inst, flavour, pw, w, C.ids_for("S" if flavour == "SS" else "A", 1), x, y, pattern, acc)
+                            n += 1
+    acc.n(traces=n, states=n)
+    acc.sample({"sequence_of_parameter_sets_in_one_process": names})
     return acc
 
 
@@ -230,6 +267,12 @@ def _default_path(acc):
             acc.seen(("default", flavour, len(pw)))
 
 
+def _unusable(acc, name, why):
+    if T.lib_refuses_valid_group(name, why):
+        acc.violation("%s/int/parameter-set-over-valid-group-fails" % "C01", {"what": "a parameter set over the valid integer group %s (well-defined seeds) cannot be built through the public API: %s" % (name, why[4:]),
+                      "replay": {"fn": "build", "name": name}, "expected": "parameter set", "observed": why[4:]})
+
+
 def run(tier, seed):
     acc = Acc()
     quick = tier == "quick"
@@ -239,6 +282,7 @@ def run(tier, seed):
         inst, why = T.try_get(name)
         if inst is None:
             acc.degrade("%s unavailable: %s" % (name, why))
+            _unusable(acc, name, why)
             continue
         for w in range(inst.q):
             tasks.append((name, [w], True))
@@ -246,6 +290,7 @@ def run(tier, seed):
         inst, why = T.try_get(name)
         if inst is None:
             acc.degrade("%s unavailable: %s" % (name, why))
+            _unusable(acc, name, why)
             continue
         # (x,y) full x w in {0,1,generic}; w full x (x in all, y in 3 values)
         for w in (0, 1, inst.q // 2 + 1):
@@ -260,6 +305,7 @@ def run(tier, seed):
         inst, why = T.try_get(name)
         if inst is None:
             acc.degrade("%s unavailable: %s" % (name, why))
+            _unusable(acc, name, why)
             continue
         xs = C.edge_scalars(inst.q, seed, 1)
         xs = xs[:4] if quick else xs[:8]
@@ -273,12 +319,16 @@ def run(tier, seed):
     stasks.sort(key=lambda t: -T.get(t[0]).ref.esize)
     core.pmerge(_shipped_task, stasks, acc)
     core.pmerge(_known_dlog_task, [(n, seed) for n in T.SHIPPED], acc)
+    core.pmerge(_sequence_task, [(["T23", "T23'", "T29", "T11"],), (["E37", "E37'", "E109"],), (["Params1024", "Params1024'"],),
+                                 (["ParamsEd25519", "ParamsEd25519'"],)], acc)
     _default_path(acc)
     return acc
 
 
 def replay(rec):
     r = T.unjson(rec["replay"])
+    if r.get("fn") == "build":
+        return T.try_get(r["name"])[1][4:]
     if r.get("default_path"):
         return "default-path run (os.urandom): not replayable bit for bit; see observed"
     inst = T.build_inst(r["inst"])
